@@ -8,26 +8,27 @@ import (
 
 // Cfg is an option vector applied through the real setters.
 type Cfg struct {
-	AttrPrefix string `json:"attr_prefix"` // default "-"
-	KeyPrefix  string `json:"key_prefix"`  // default "#"
-	Lower      bool   `json:"lower,omitempty"`
-	Snake      bool   `json:"snake,omitempty"`
-	SimpleMap  bool   `json:"simple_map,omitempty"`
-	KeepSpaces bool   `json:"keep_spaces,omitempty"`
-	SeqNum     bool   `json:"seq_num,omitempty"`
-	EscDec     bool   `json:"esc_dec,omitempty"`
-	EscEnc     bool   `json:"esc_enc,omitempty"`
-	Cast       bool   `json:"cast,omitempty"` // the cast flag passed to decoders
-	CastInt    bool   `json:"cast_int,omitempty"`
-	NoFloat    bool   `json:"no_float,omitempty"` // CastValuesToFloat(false)
-	NoBool     bool   `json:"no_bool,omitempty"`  // CastValuesToBool(false)
-	NanInf     bool   `json:"nan_inf,omitempty"`
-	CheckValid bool   `json:"check_valid,omitempty"`
-	GoEmpty    bool   `json:"go_empty,omitempty"`
-	SkipTag    string `json:"skip_tag,omitempty"` // SetCheckTagToSkipFunc: skip this key
-	DotNot     bool   `json:"dot_notation,omitempty"`
-	FieldSep   string `json:"field_sep,omitempty"`
-	UseNumber  bool   `json:"use_number,omitempty"`
+	AttrPrefix  string `json:"attr_prefix"` // default "-"
+	KeyPrefix   string `json:"key_prefix"`  // default "#"
+	Lower       bool   `json:"lower,omitempty"`
+	Snake       bool   `json:"snake,omitempty"`
+	SimpleMap   bool   `json:"simple_map,omitempty"`
+	KeepSpaces  bool   `json:"keep_spaces,omitempty"`
+	SeqNum      bool   `json:"seq_num,omitempty"`
+	EscDec      bool   `json:"esc_dec,omitempty"`
+	EscEnc      bool   `json:"esc_enc,omitempty"`
+	EscEncFirst bool   `json:"esc_enc_first,omitempty"` // call XMLEscapeChars(true) before XMLEscapeCharsDecoder(true)
+	Cast        bool   `json:"cast,omitempty"`          // the cast flag passed to decoders
+	CastInt     bool   `json:"cast_int,omitempty"`
+	NoFloat     bool   `json:"no_float,omitempty"` // CastValuesToFloat(false)
+	NoBool      bool   `json:"no_bool,omitempty"`  // CastValuesToBool(false)
+	NanInf      bool   `json:"nan_inf,omitempty"`
+	CheckValid  bool   `json:"check_valid,omitempty"`
+	GoEmpty     bool   `json:"go_empty,omitempty"`
+	SkipTag     string `json:"skip_tag,omitempty"` // SetCheckTagToSkipFunc: skip this key
+	DotNot      bool   `json:"dot_notation,omitempty"`
+	FieldSep    string `json:"field_sep,omitempty"`
+	UseNumber   bool   `json:"use_number,omitempty"`
 }
 
 func defCfg() Cfg { return Cfg{AttrPrefix: "-", KeyPrefix: "#"} }
@@ -111,10 +112,13 @@ func applyCfg(c Cfg) {
 	if c.SeqNum {
 		mxj.IncludeTagSeqNum(true)
 	}
+	if c.EscEnc && c.EscEncFirst {
+		mxj.XMLEscapeChars(true)
+	}
 	if c.EscDec {
 		mxj.XMLEscapeCharsDecoder(true)
 	}
-	if c.EscEnc {
+	if c.EscEnc && !c.EscEncFirst {
 		mxj.XMLEscapeChars(true)
 	}
 	if c.CastInt {
@@ -155,4 +159,3 @@ func mustBeDefault(c *Ctx) {
 		c.Broken("options not at defaults after reset: %s", d)
 	}
 }
-
